@@ -245,8 +245,7 @@ def run_env(program: Dict[str, Any], env: str) -> Dict[str, Any]:
                 try:
                     rec = json.loads(ln)
                     if isinstance(rec.get("consumed"), dict):
-                        rec["consumed"]["ms"] = 0
-                    rec["ms"] = 0
+                        rec["consumed"]["ms"] = 0   # the one field of this stream the property lets vary
                     masked.append(json.dumps(rec, sort_keys=True))
                 except Exception:
                     masked.append(ln)
